@@ -36,6 +36,21 @@ COMMAND_KEYWORDS = {
 TAG_KEYWORD = {v: k for k, v in COMMAND_KEYWORDS.items()}
 
 
+class TagVal(int):
+    """pydicom.tag.BaseTag: an int (group << 16 | element) that also compares equal to the
+    (group, element) pair (ops.values_equal)"""
+    is_dicom_tag = True
+
+    def __repr__(self):
+        return '(%04x, %04x)' % (int(self) >> 16, int(self) & 0xFFFF)
+
+
+def tag_val(tag):
+    if isinstance(tag, tuple):
+        return TagVal((tag[0] << 16) | tag[1])
+    return TagVal(int(tag))
+
+
 def install(it):
     obj = it.builtins['object']
 
@@ -47,14 +62,14 @@ def install(it):
     # ---- DataElement
     def de_init(it, args, kw):
         me = args[0]
-        me.fields['tag'] = args[1]
+        me.fields['tag'] = tag_val(args[1]) if isinstance(args[1], (int, tuple)) else args[1]
         me.fields['VR'] = args[2] if len(args) > 2 else kw.get('VR')
         me.fields['value'] = args[3] if len(args) > 3 else kw.get('value')
     DataElement = ClassVal('DataElement', [obj], {'__init__': method(de_init)}, 'pydicom')
 
     def new_elem(it, tag, value):
         e = Obj(DataElement)
-        e.fields['tag'] = tag
+        e.fields['tag'] = tag_val(tag)
         e.fields['VR'] = None
         e.fields['value'] = value
         return e
